@@ -356,7 +356,7 @@ theorem ux_meth (sig : Var → Bool) (h2 : sig .nodeLL = true ∨ sig .nodeXYZ =
 /-- the decidable table check is all that is left to establish for a source signature -/
 theorem ux_mwf_of_wfB (sig : Var → Bool) (h : wfB (uxTable repaired sig) sig = true)
     (h2 : sig .nodeLL = true ∨ sig .nodeXYZ = true) : MWF (uxModel repaired) sig :=
-  ⟨wf_of_wfB h, ux_fuel sig, ux_meth sig h2, ux_pol, rfl⟩
+  ⟨wf_of_wfB h, ux_fuel sig, ux_meth sig h2, ux_pol, fun c => by cases c <;> rfl, rfl⟩
 
 set_option maxRecDepth 4000 in
 /-- every unit of the repaired library passes the table check, whatever the source supplies
@@ -499,6 +499,24 @@ theorem asis_tree_key :
         [.open_ sPlain, .on 0 (.cached .ball [0, 0, 0] false true)]).res (uxModel { treeKey := true }) 0
           (.cached .ball [0, 1, 1] false true)
       ≠ refRes (uxModel { treeKey := true }) sPlain 0 (.cached .ball [0, 1, 1] false true) := by
+  decide +kernel
+
+/-- (seeded C08e) the tree wrappers keep one slot per `coordinates` kind; if the bookkeeping that
+    travels with the wrapper (`_n_elements`: which `k` a query accepts) is refreshed only when a slot
+    is BUILT, the history nodes → face centers → nodes hands back the node tree with the face count:
+    what it accepts / rejects differs from a fresh grid's -/
+theorem asis_stale_count :
+    ((World.mk [] {}).run (uxModel { staleCount := true })
+        [.open_ sPlain, .on 0 treeNodesSph, .on 0 treeFacesSph]).res (uxModel { staleCount := true }) 0 treeNodesSph
+      ≠ refRes (uxModel { staleCount := true }) sPlain 0 treeNodesSph := by
+  decide +kernel
+
+/-- the repaired wrapper on the same revisit history (and A→B→C→A): slot reused, bookkeeping fresh -/
+example :
+    ((World.mk [] {}).run (uxModel repaired)
+        [.open_ sPlain, .on 0 treeNodesSph, .on 0 treeFacesSph, .on 0 (.cached .ball [2, 0, 0] false true)]).res
+          (uxModel repaired) 0 treeNodesSph
+      = refRes (uxModel repaired) sPlain 0 treeNodesSph := by
   decide +kernel
 
 /-- (C15) `to_linecollection` never records the projection: a projected collection answers the
